@@ -486,6 +486,15 @@ class ActionTypeHint(Action):
         )
 
     @staticmethod
+    def check_append_items(parser, key, value):
+        """Checks the items given with 'key+' where they are written, so that relative paths follow the config."""
+        action = _find_action(parser, key[:-1])
+        if ActionTypeHint.supports_append(action):
+            with parser_context(load_value_mode=parser.parser_mode):
+                value = action._check_type_(value, append=True, cfg=None)
+        return value
+
+    @staticmethod
     def apply_appends(parser, cfg):
         for key in [k for k in cfg.keys() if k.endswith("+")]:
             action, subcommand = _find_action_and_subcommand(parser, key[:-1])
